@@ -122,7 +122,13 @@ func genAccept(g *prng.R) c06Case {
 		accepters = append(accepters, dave())
 	}
 	// the stored Follow variant
-	variant := pick(g, "good", "good", "absent", "other-type", "other-actor", "lacks-accepter", "good-superset")
+	variant := pick(g, "good", "good", "absent", "other-type", "other-actor", "lacks-accepter", "good-superset", "lacks-one-accepter", "lacks-one-accepter")
+	if variant == "lacks-one-accepter" && len(accepters) < 2 {
+		accepters = append(accepters, dave())
+	}
+	if g.Chance(1, 4) {
+		accepters = append(accepters, erin())
+	}
 	storedObjs := A{}
 	for _, a := range accepters {
 		storedObjs = append(storedObjs, a)
@@ -140,7 +146,19 @@ func genAccept(g *prng.R) c06Case {
 		stored["actor"] = bob()
 		cond = false
 	case "lacks-accepter":
-		stored["object"] = A{erin()}
+		stored["object"] = A{R2 + "/users/somebody-else"}
+		cond = false
+	case "lacks-one-accepter":
+		// every accepter but one (at a random position) was followed
+		skip := g.Intn(len(accepters))
+		var objs A
+		for i, a := range accepters {
+			if i != skip {
+				objs = append(objs, a)
+			}
+		}
+		objs = append(objs, R2+"/users/somebody-else")
+		stored["object"] = objs
 		cond = false
 	case "good-superset":
 		stored["object"] = append(storedObjs, erin())
